@@ -395,10 +395,11 @@ fn gen_scale_offset(r: &mut Rng) -> (f64, f64) {
         5 => 1e6,
         _ => (r.range(1, 100000)) as f64 / 1000.0,
     };
-    let offset = match r.usize(5) {
+    let offset = match r.usize(6) {
         0 => 0.0,
         1 => -100.0,
         2 => 1e7,
+        3 => -0.0, // the sign of a zero offset is part of the declared type
         _ => gen_f64_tame(r),
     };
     (scale, offset)
